@@ -17,7 +17,7 @@ class Prog:
         self.segments = []            # dicts: type,flags,align,vaddr,paddr,members (user-section numbers, 0-based), nested_in
 
 
-def gen_prog(rng, cfg=None, nsec=None, nseg=None, allow_nested=True, allow_compr_nocreate=False, small=False, nonalloc_members=False, under_aligned=None):
+def gen_prog(rng, cfg=None, nsec=None, nseg=None, allow_nested=True, allow_compr_nocreate=False, small=False, nonalloc_members=False, under_aligned=None, nested_focus=False, allow_skipping=True):
     if under_aligned is None:
         under_aligned = rng.random() < 0.3
     p = Prog()
@@ -38,10 +38,14 @@ def gen_prog(rng, cfg=None, nsec=None, nseg=None, allow_nested=True, allow_compr
             p.lines.append("hdr %s %d" % (f, v))
     nsec = rng.randint(0, 8) if nsec is None else nsec
     nseg = rng.randint(0, 4) if nseg is None else nseg
+    if nested_focus:
+        # programs aimed at nested segments: an explicitly addressed segment of 3-4 members and a second segment over a
+        # sub-list of them that skips members in the middle, declared before or after it
+        nsec, nseg = max(nsec, 5), max(nseg, 1)
     # ---- sections
     for i in range(nsec):
-        nobits = rng.random() < 0.15
-        alloc = nobits or rng.random() < 0.6
+        nobits = rng.random() < (0.15 if not nested_focus else 0.0)
+        alloc = nobits or rng.random() < 0.6 or (nested_focus and i < 4)
         flags = (2 if alloc else 0) | (rng.choice([0, 1, 4, 5]) if alloc else rng.choice([0, 0x30]))
         s = dict(name=rname(rng, 1, 9) if rng.random() < 0.9 else b"", type=8 if nobits else rng.choice(SEC_TYPES), flags=flags,
                  link=rng.choice([0, 0, 1, rval(rng, 32)]), info=rng.choice([0, 0, rval(rng, 32)]),
@@ -50,6 +54,8 @@ def gen_prog(rng, cfg=None, nsec=None, nseg=None, allow_nested=True, allow_compr
             s["size"] = rng.choice([0, 1, 16, 4096, 100])
         else:
             n = rng.choice([0, 1, 3, 4, 5, 16, 17, 64]) if small else rng.choice([0, 1, 4, 5, 16, 17, 100, 255, 300, rng.randint(0, 300)])
+            if nested_focus and i < 4 and n == 0:
+                n = 5
             s["data"] = rbytes(rng, n); s["size"] = n
         p.sections.append(s)
     # ---- segments over runs of allocated, non-empty sections (no-bits only last)
@@ -62,12 +68,17 @@ def gen_prog(rng, cfg=None, nsec=None, nseg=None, allow_nested=True, allow_compr
     vbase = rng.choice([0x1000, 0x8048000, 0x400000, 0x10000])
     for j in range(nseg):
         cand = [i for i in free if i not in used]
-        g = dict(type=rng.choice([1, 1, 1, 2, 4, 0x6474e551]), flags=rng.choice([4, 5, 6, 7]), align=rng.choice([0, 1, 4, 16, 0x1000, 0x10000]),
+        g = dict(type=rng.choice([1, 1, 1, 2, 4, 0x6474e551, 0, 1]), flags=rng.choice([4, 5, 6, 7]), align=rng.choice([0, 1, 4, 16, 0x1000, 0x10000]),
                  vaddr=0, paddr=0, members=[], explicit=rng.random() < 0.5, nested_in=None)
         if empty_members:
             g["explicit"] = False
-        if cand and rng.random() < 0.85:
-            k = rng.randint(1, min(3, len(cand)))
+        focus = nested_focus and j == 0 and len(cand) >= 3
+        if focus:
+            g["explicit"] = True
+        if cand and (rng.random() < 0.85 or focus):
+            k = rng.randint(1, min(4 if rng.random() < 0.3 else 3, len(cand)))
+            if focus:
+                k = min(rng.choice([3, 4]), len(cand))
             start = rng.randrange(0, len(cand) - k + 1)
             mem = cand[start:start + k]
             # no-bits only last
@@ -78,7 +89,7 @@ def gen_prog(rng, cfg=None, nsec=None, nseg=None, allow_nested=True, allow_compr
                     break
             # the writer asks for members listed in address order, not in creation (index) order: sometimes list
             # them in another order (no-bits still last); addresses below follow the listed order
-            if len(keep) >= 2 and rng.random() < 0.3:
+            if len(keep) >= 2 and rng.random() < 0.3 and not focus:
                 body = [m for m in keep if p.sections[m]["type"] != 8]
                 tail = [m for m in keep if p.sections[m]["type"] == 8]
                 rng.shuffle(body)
@@ -123,15 +134,27 @@ def gen_prog(rng, cfg=None, nsec=None, nseg=None, allow_nested=True, allow_compr
     # nested segments: a contiguous sub-list of an explicit segment's members, starting at that member's address
     if allow_nested:
         for g in list(p.segments):
-            if g["explicit"] and len(g["members"]) >= 2 and not g.get("shuffled") and rng.random() < 0.4:
+            if g["explicit"] and len(g["members"]) >= 2 and not g.get("shuffled") and (rng.random() < 0.4 or nested_focus):
                 a = rng.randrange(0, len(g["members"]) - 1 + 1)
                 b = rng.randint(a + 1, len(g["members"]))
+                if len(g["members"]) >= 3 and (rng.random() < 0.5 or nested_focus):
+                    a, b = 0, len(g["members"])
                 sub = g["members"][a:b]
+                # sometimes a sub-list that skips members in the middle ({a, c} of {a, b, c}) ...
+                if len(sub) >= 3 and (rng.random() < 0.6 or nested_focus) and allow_skipping:
+                    mid = [m for m in sub[1:-1] if rng.random() < 0.4]
+                    if len(mid) == len(sub) - 2:
+                        mid = mid[1:]
+                    sub = [sub[0]] + mid + [sub[-1]]
                 if len(sub) < len(g["members"]):
                     al = min(g["align"], rng.choice([0, 1, 4, 16]))
                     n = dict(type=rng.choice([1, 4, 2]), flags=rng.choice([4, 6]), align=al, vaddr=p.sections[sub[0]]["addr"],
                              paddr=p.sections[sub[0]]["addr"], members=sub, explicit=True, nested_in=g)
-                    p.segments.append(n)
+                    # ... and sometimes declared before the segment it lies in
+                    if rng.random() < 0.4:
+                        p.segments.insert([k for k, x in enumerate(p.segments) if x is g][0], n)
+                    else:
+                        p.segments.append(n)
     # sections that got no explicit address but are outside segments may get one too
     # (kept clear of every segment's address range: the writer's domain asks for non-overlapping
     #  addresses, and an allocated section whose address falls inside a segment is a member of it on reload)
